@@ -169,7 +169,7 @@ class Play:
         rng = self.rng
         kind = kind or rng.choice(["wrong-leader", "stale", "equivocate", "future", "far-future", "parent-mismatch", "view-not-above",
                            "bad-qc-dup", "bad-qc-sub", "bad-qc-relabel", "bad-qc-nil", "unknown-qc-block", "skip-view",
-                           "fork", "fork", "fork-lock"])
+                           "fork", "fork", "fork-lock", "fork-lock", "fork-lock"])
         nm = self.fresh("X")
         ld = self.leader(v)
         parent, qc, view, prop = self.cur, self.curqc, v, ld
@@ -361,6 +361,16 @@ class Play:
 
     def run(self, nviews):
         rng = self.rng
+        if self.adv and rng.random() < 0.15:
+            # a commit, then a well-formed proposal on an older certified block whose own chain ends BELOW
+            # the committed block: the commit rule names an ancestor of what is committed already
+            for _ in range(max(nviews, 5)):
+                self.honest_view()
+            for _ in range(rng.randrange(1, 3)):
+                self.inject_proposal(self.view, before=True, kind=rng.choice(["fork-lock", "fork-lock", "fork"]))
+                self.honest_view()
+            self.L.append("dump")
+            return self.L
         for _ in range(nviews):
             if self.adv and rng.random() < 0.3:
                 self.inject_newview(self.view)
